@@ -95,7 +95,7 @@ type ender struct {
 type scen struct {
 	c        cfg
 	adders   [][]int // per adder: gaps (units) before each Add
-	consumer byte    // 'p' prompt, 's' slow (reads after each 1-unit sleep), 'n' never reads
+	consumer byte    // 'p' prompt, 's' slow (reads after each 1-unit sleep), 'l' late (first read after 3 x MaxDelay + 1 unit, then prompt), 'n' never reads
 	end      ender
 	timeline bool
 }
@@ -152,6 +152,15 @@ func mkExec(s scen) *mc.Exec {
 		switch s.consumer {
 		case 'p':
 			mc.GoNamed("consumer", func() {
+				for {
+					ch.Recv()
+					sigs = append(sigs, sigRec{mc.Step(), mc.ModelNow()})
+				}
+			})
+		case 'l':
+			mc.GoNamed("consumer", func() {
+				// busy elsewhere for longer than any rate-limiting window, then attentive
+				mc.TimeSleep(time.Duration(3*s.c.max+1) * unit)
 				for {
 					ch.Recv()
 					sigs = append(sigs, sigRec{mc.Step(), mc.ModelNow()})
@@ -246,10 +255,10 @@ func mkExec(s scen) *mc.Exec {
 			oc = append(oc, fmt.Sprint(int(sg.at/unit), ".", int(sg.at%unit)))
 		}
 		mc.Outcome(strings.Join(oc, ","))
-		if ended || s.consumer != 'p' {
+		if ended || s.consumer == 'n' {
 			return nil
 		}
-		// ---- no Add lost (limiter stays open, consumer prompt) ----
+		// ---- no Add lost (limiter stays open, the consumer reads — at once, slowly or late) ----
 		if p, _ := ratelimiting.McPending(rl); p != 0 {
 			return fmt.Errorf("lost Add: %d events still pending at final quiescence (t=%v, armed timers=%d); signals=%v", p, e.Now, mc.ArmedTimers(), oc)
 		}
@@ -270,10 +279,10 @@ func mkExec(s scen) *mc.Exec {
 				return fmt.Errorf("lost Add: no signal after the last Add (issued at step %d, t=%v); signals at %v", last.start, last.at, oc)
 			}
 		}
-		if !s.timeline {
+		if !s.timeline || s.consumer != 'p' {
 			return nil
 		}
-		// ---- timeline mode: time moved only at quiescence ----
+		// ---- timeline mode, prompt consumer: time moved only at quiescence ----
 		max := time.Duration(s.c.max) * unit
 		for _, a := range adds {
 			ok := false
@@ -366,6 +375,16 @@ func scenarios() []hx.Scenario {
 			add(scen{c: c, adders: [][]int{g}, consumer: 'p', timeline: true}, 2, mc.TimerGo123, len(g) > 3)
 		}
 	}
+	// (a+) a consumer that is slow, or comes to the channel only long after the
+	// signal was raised: the signal waits for it, no Add is lost
+	for _, c := range []cfg{{2, 4, 0}, {2, 8, 2}} {
+		for _, g := range seqs([]int{0, 1, 3, 9}, 3) {
+			g[0] = 0
+			for _, cons := range []byte{'l', 's'} {
+				add(scen{c: c, adders: [][]int{g}, consumer: cons, timeline: true}, 1, mc.TimerGo123, len(g) > 2 && cons == 's')
+			}
+		}
+	}
 	// (a') longer histories over a small gap alphabet: a first busy period that
 	// reaches MaxDelay, an idle gap, then a second busy period (the window must
 	// start again from InitialDelay)
@@ -402,8 +421,11 @@ func scenarios() []hx.Scenario {
 	for _, c := range raceCfgs {
 		for ai, as := range addScripts {
 			for _, en := range enders {
-				for _, cons := range []byte{'p', 's', 'n'} {
+				for _, cons := range []byte{'p', 's', 'n', 'l'} {
 					if en.kind == 0 && cons != 'p' && ai > 4 {
+						continue
+					}
+					if cons == 'l' && (en.kind != 0 || c.cap == 1) {
 						continue
 					}
 					nAdds := 0
